@@ -17,6 +17,7 @@ import (
 	"verif/sim/internal/eng"
 	"verif/sim/internal/engines/chain"
 	"verif/sim/internal/engines/conc"
+	"verif/sim/internal/engines/recovery"
 	"verif/sim/internal/engines/rw"
 	"verif/sim/internal/sched"
 	"verif/sim/internal/shrink"
@@ -30,6 +31,7 @@ var engines = map[string]eng.Engine{
 	"conc":  conc.Engine{},
 	"chain": chain.Engine{},
 	"rw":    rw.Engine{},
+	"recovery": recovery.Engine{},
 }
 
 // ReplayFile is the on-disk form of one (minimised) failing run.
@@ -67,6 +69,7 @@ type Summary struct {
 	Probes      map[string]int `json:"probes"`
 	SwitchPairs map[string]int `json:"switch_pairs"`
 	Violations  []VioRef       `json:"violations"`
+	Known       map[string]int `json:"known"`
 	Samples     []any          `json:"samples"`
 	WallS       float64        `json:"wall_s"`
 	FirstIndex  uint64         `json:"first_index"`
@@ -120,9 +123,13 @@ func getEngine(name string) eng.Engine {
 	return e
 }
 
+var knownFindings []eng.KnownFinding
+
+// hasClass finds a violation of the class that is not an instance of a recorded known finding
+// (so that shrinking cannot drift from a new violation into a known one).
 func hasClass(res *eng.Result, class string) *eng.Violation {
 	for i := range res.Violations {
-		if res.Violations[i].Class() == class {
+		if res.Violations[i].Class() == class && eng.MatchKnown(knownFindings, res.Violations[i]) == nil {
 			return &res.Violations[i]
 		}
 	}
@@ -162,10 +169,11 @@ func batch(args []string) {
 	marker := fs.String("marker", "", "file receiving the index of the run in progress")
 	replays := fs.String("replays", "/verif/replays", "")
 	maxViol := fs.Int("maxviol", 3, "")
+	knownPath := fs.String("known", "/verif/known_findings.json", "known-findings file")
 	logh := fs.String("loghash", "", "file receiving one line per run: index and a hash of the complete event log (determinism self-test)")
 	fs.Parse(args)
 	e := getEngine(*en)
-	sum := &Summary{Engine: e.Name(), Race: sched.RaceOn, Faults: map[string]int{}, Sites: map[string]int{}, Probes: map[string]int{}, SwitchPairs: map[string]int{},
+	sum := &Summary{Engine: e.Name(), Race: sched.RaceOn, Faults: map[string]int{}, Sites: map[string]int{}, Probes: map[string]int{}, SwitchPairs: map[string]int{}, Known: map[string]int{},
 		FirstIndex: *from, DistinctRule: e.DistinctRule()}
 	var mf *os.File
 	if *marker != "" {
@@ -178,6 +186,8 @@ func batch(args []string) {
 	}
 	var sigs []uint64
 	seenClass := map[string]bool{}
+	known := eng.LoadKnown(*knownPath)
+	knownFindings = known
 	start := time.Now()
 	deadline := start.Add(*budget)
 	idx := *from
@@ -234,14 +244,18 @@ func batch(args []string) {
 			sum.Samples = append(sum.Samples, map[string]any{"run_index": idx, "run_seed": rs, "trace": res.Trace})
 		}
 		for _, v := range res.Violations {
+			if k := eng.MatchKnown(known, v); k != nil {
+				sum.Known[k.Property+" "+k.What]++
+				continue
+			}
 			if seenClass[v.Class()] {
 				continue
 			}
 			seenClass[v.Class()] = true
-			ref := record(e, *seed, idx, rs, t, v, *replays)
+			ref := record(e, *seed, idx, rs, t, v, *replays, !res.Poisoned)
 			sum.Violations = append(sum.Violations, ref)
 		}
-		if len(sum.Violations) >= *maxViol {
+		if len(sum.Violations) >= *maxViol || res.Poisoned {
 			break
 		}
 		idx += *stride
@@ -261,10 +275,11 @@ func batch(args []string) {
 		os.Stdout.Write(b)
 		fmt.Println()
 	}
+	os.Exit(0) // do not wait for goroutines a hanging run may have left behind
 }
 
 // record shrinks a failing run in-process and writes its replay file.
-func record(e eng.Engine, master, idx, rs uint64, t *tape.Tape, v eng.Violation, dir string) VioRef {
+func record(e eng.Engine, master, idx, rs uint64, t *tape.Tape, v eng.Violation, dir string, doShrink bool) VioRef {
 	class := v.Class()
 	rec := shrink.Rec(t.Record())
 	orig := map[string]int{}
@@ -278,6 +293,18 @@ func record(e eng.Engine, master, idx, rs uint64, t *tape.Tape, v eng.Violation,
 			return false, nil, nil
 		}
 		return true, shrink.Rec(tt.Record()), tt.Spans()
+	}
+	if !doShrink {
+		// A task is stuck outside the scheduler: nothing more may run in this process. The
+		// unshrunk tape is recorded; replay happens in a fresh process.
+		rf := ReplayFile{Property: v.Property, Engine: e.Name(), Rule: v.Rule, MasterSeed: master, RunIndex: idx, RunSeed: rs,
+			Build: map[string]any{"tags": "verif", "race": sched.RaceOn}, Tape: t.Record(), SchedHash: "", Violation: v, Original: orig,
+			Note: "not minimised: the code under test hung or spun outside the scheduler, which poisons the process"}
+		os.MkdirAll(dir, 0o755)
+		path := filepath.Join(dir, fmt.Sprintf("%s-%s-%d-hang.json", v.Property, e.Name(), idx))
+		b, _ := json.MarshalIndent(rf, "", " ")
+		os.WriteFile(path, b, 0o644)
+		return VioRef{Class: class, Replay: path, V: v}
 	}
 	best, attempts := shrink.Shrink(rec, t.Spans(), shrinkOrder, test, 500, time.Now().Add(30*time.Second))
 	tt := tape.Replay(rs, best)
@@ -337,12 +364,13 @@ func replay(args []string) {
 	t := tape.Replay(rf.RunSeed, rf.Tape)
 	res := e.Run(t, eng.Opts{Trace: true})
 	class := rf.Property + "/" + rf.Rule
+	knownFindings = eng.LoadKnown("/verif/known_findings.json")
 	if !*quiet {
 		for _, l := range res.Trace {
 			fmt.Println(l)
 		}
 	}
-	same := strconv.FormatUint(res.SchedHash, 16) == rf.SchedHash
+	same := rf.SchedHash == "" || strconv.FormatUint(res.SchedHash, 16) == rf.SchedHash
 	fmt.Printf("replay: schedule_hash=%x recorded=%s identical=%v\n", res.SchedHash, rf.SchedHash, same)
 	if v := hasClass(res, class); v != nil {
 		fmt.Printf("replay: reproduced %s\n%s\n", class, v.Detail)
